@@ -47,11 +47,18 @@ theorem Ext.of_fields {st st' : St} (h : netFields st' = netFields st) : Ext st 
 @[simp] theorem nf_checkHierarchy (st : St) (c d : String) : netFields (checkHierarchy st c d) = netFields st := by
   unfold checkHierarchy; split <;> rfl
 
+theorem nf_renameStrict {st st' : St} {i : Nat} {p n : String} (h : renameStrict st i p n = Except.ok st') :
+    netFields st' = netFields st := by
+  unfold renameStrict at h
+  split at h
+  · cases h
+  · cases h; rfl
+
 theorem nf_rename {st st' : St} {i : Nat} {p n : String} (h : rename st i p n = Except.ok st') :
     netFields st' = netFields st := by
   unfold rename at h
   split at h
-  · cases h
+  · cases h; exact nf_assignDefault _ _ _ _
   · cases h; rfl
 
 theorem nf_addLatchPorts (l : List String) : ∀ st : St, netFields (addLatchPorts st l) = netFields st := by
@@ -239,7 +246,7 @@ theorem nf_applyInfo {idx : Nat} {parent : String} (l : List InfoStmt) :
     | cname n =>
       unfold applyInfo at h
       obtain ⟨s1, h1, h⟩ := bind_ok h
-      rw [ih h, nf_rename h1]; rfl
+      rw [ih h, nf_renameStrict h1]; rfl
     | attr k v => unfold applyInfo at h; rw [ih h]; rfl
     | param k v => unfold applyInfo at h; rw [ih h]; rfl
 
